@@ -194,10 +194,45 @@ func (x *Exec) vrtCall(g *G, fn *ssa.Function, args []Value) Value {
 	case "vNow":
 		return x.now
 	case "vAdvance":
-		d := args[0].(*Term)
-		x.advance(d)
-		x.quiesceReq = true
-		x.cur = nil
+		// Event-driven: timers that become due fire one at a time in deadline
+		// order, and the goroutines they wake run until blocked before the next
+		// one fires (as on a real clock). The call instruction is re-executed
+		// after every block until nothing more is due.
+		othersRunnable := func() bool {
+			for _, o := range x.gs {
+				if o != g && o.runnable() {
+					return true
+				}
+			}
+			return false
+		}
+		waitQuiet := func() {
+			g.wcond = func() bool { return !othersRunnable() }
+			x.block(g, wCond, "advance")
+		}
+		st := x.advancing[g]
+		if st == nil {
+			st = &advState{target: Add(x.now, args[0].(*Term))}
+			x.advancing[g] = st
+		}
+		if othersRunnable() {
+			waitQuiet()
+			return nil
+		}
+		if t := x.pickDue(st.target); t != nil {
+			t.active = false
+			x.now = Ite(Slt(x.now, t.deadline), t.deadline, x.now)
+			if t.fn != nil {
+				t.fn()
+			}
+			if t.ch != nil {
+				x.trySendCh(t.ch, x.timeValue(x.now))
+			}
+			waitQuiet()
+			return nil
+		}
+		x.now = Ite(Slt(x.now, st.target), st.target, x.now)
+		delete(x.advancing, g)
 		return nil
 	case "vFireTimer":
 		ok := x.fireTimer()
@@ -274,6 +309,66 @@ func (x *Exec) vrtCall(g *G, fn *ssa.Function, args []Value) Value {
 	}
 	x.unsupported("unknown vrt function %s", fn.Name())
 	return nil
+}
+
+type advState struct{ target *Term }
+
+// pickDue returns the earliest active timer with deadline <= target (forking
+// on symbolic deadlines), or nil.
+func (x *Exec) pickDue(target *Term) *Timer {
+	var due []*Timer
+	for _, t := range x.timers {
+		if !t.active {
+			continue
+		}
+		c := Sle(t.deadline, target)
+		if c.IsConst() {
+			if c.IsTrue() {
+				due = append(due, t)
+			}
+			continue
+		}
+		if x.choose([]*Term{c, Not(c)}, "timerdue") == 0 {
+			due = append(due, t)
+		}
+	}
+	if len(due) == 0 {
+		return nil
+	}
+	allConst := true
+	for _, t := range due {
+		if !t.deadline.IsConst() {
+			allConst = false
+		}
+	}
+	pick := due[0]
+	if allConst {
+		for _, t := range due {
+			if sx(t.deadline.U, 64) < sx(pick.deadline.U, 64) {
+				pick = t
+			}
+		}
+		return pick
+	}
+	if len(due) > 1 {
+		conds := make([]*Term, len(due))
+		for i, t := range due {
+			cs := []*Term{}
+			for j, o := range due {
+				if i == j {
+					continue
+				}
+				if j < i {
+					cs = append(cs, Slt(t.deadline, o.deadline))
+				} else {
+					cs = append(cs, Sle(t.deadline, o.deadline))
+				}
+			}
+			conds[i] = And(cs...)
+		}
+		pick = due[x.choose(conds, "timer")]
+	}
+	return pick
 }
 
 // advance virtual time by d, firing every timer that becomes due (in order).
@@ -454,7 +549,7 @@ func (h *Harness) wantCoverWitness(label string) bool {
 func (h *Harness) runPath(ps *PathSolver, prefix []int) (res *PathResult) {
 	res = &PathResult{}
 	x := &Exec{P: h.P, H: h, sv: ps, prefix: prefix, globals: map[*ssa.Global]*Value{},
-		covers: map[string]bool{}, natives: map[*Value]*Native{}, natTimers: map[*Value]*Timer{}, quiesced: map[*G]bool{}, encoded: map[*Str][]*Term{}, sleeping: map[*G]*bool{}, funcsHit: map[*ssa.Function]int{}, res: res}
+		covers: map[string]bool{}, natives: map[*Value]*Native{}, natTimers: map[*Value]*Timer{}, quiesced: map[*G]bool{}, encoded: map[*Str][]*Term{}, sleeping: map[*G]*bool{}, advancing: map[*G]*advState{}, funcsHit: map[*ssa.Function]int{}, res: res}
 	x.now = MkBV(64, 1_000_000_000_000_000)
 	x.preemptBudget = 0
 	ps.begin()
